@@ -139,6 +139,10 @@ func CloneExpr(e Expr) Expr {
 		return &Catch{CloneExpr(e.X), e.ErrName, cloneStmts(e.Handler), CloneExpr(e.Fallback)}
 	case *Len:
 		return &Len{CloneExpr(e.X)}
+	case *NoneLit:
+		return &NoneLit{}
+	case *Coalesce:
+		return &Coalesce{CloneExpr(e.X), CloneExpr(e.D)}
 	case *Paren:
 		return &Paren{CloneExpr(e.X)}
 	}
@@ -288,6 +292,9 @@ func walkExpr(slot *Expr, list *[]Stmt, at int, role string, v Visitor) {
 		}
 	case *Len:
 		sub(&e.X, "place")
+	case *Coalesce:
+		sub(&e.X, "")
+		sub(&e.D, "")
 	case *Paren:
 		sub(&e.X, role)
 	}
